@@ -326,6 +326,52 @@ func c28Programs() []c28Prog {
 		a := c28New().op(RETURNDATASIZE).push(0).op(MSTORE)
 		add("returndata-fresh", a.ret(0, 32).bytes(), ok(c28Zeros(32)))
 	}
+	// ---- memory above the 16 KiB pooling threshold: dirtiers leave non-zero words just below / just above 16 KiB, at 0x5000 and
+	// at 64 KiB; observers expand memory to those regions by READING first (unwritten memory must read as zero)
+	highOffs := []uint64{16352, 16384, 0x5000, 0x10000}
+	{
+		a := c28New()
+		for _, o := range highOffs {
+			a.mstore(o, c28Junk)
+		}
+		hiMstore := add("mem-dirty-high-mstore", a.op(STOP).bytes(), ok(nil))
+		a = c28New()
+		for _, o := range highOffs {
+			a.push(32).push(0).push(o).op(CODECOPY)
+		}
+		add("mem-dirty-high-codecopy", a.op(STOP).pushBytes(c28Ones).bytes(), ok(nil))
+		a = c28New()
+		for _, o := range highOffs {
+			a.push(32).push(0).push(o).op(CALLDATACOPY)
+		}
+		add("mem-dirty-high-calldatacopy", a.op(STOP).bytes(), ok(nil))
+		a = c28New().push(0).push(0).push(0).push(0).push(0).pushBytes(hiMstore.Bytes()).op(GAS, CALL, POP, STOP)
+		add("mem-dirty-high-in-callee", a.bytes(), ok(nil))
+
+		a = c28New()
+		for i, o := range highOffs {
+			a.push(o).op(MLOAD)
+			if i > 0 {
+				a.op(OR)
+			}
+		}
+		a.push(0).op(MSTORE)
+		add("mem-high-fresh-mload", a.ret(0, 32).bytes(), ok(c28Zeros(32)))
+		a = c28New()
+		for i, o := range highOffs {
+			a.push(32).push(o).push(32 * uint64(i)).op(MCOPY)
+		}
+		add("mem-high-fresh-mcopy", a.ret(0, 128).bytes(), ok(c28Zeros(128)))
+		span := uint64(0x10000 + 32 - 16352)
+		a = c28New().push(span).push(16352).op(KECCAK256).push(0).op(MSTORE)
+		add("mem-high-fresh-keccak", a.ret(0, 32).bytes(), ok(crypto.Keccak256(c28Zeros(int(span)))))
+		add("mem-high-fresh-return-16k", c28New().ret(16352, 128).bytes(), ok(c28Zeros(128)))
+		add("mem-high-fresh-return-64k", c28New().ret(0x10000, 64).bytes(), ok(c28Zeros(64)))
+		add("mem-high-fresh-log", c28New().push(64).push(0x5000).op(LOG0, STOP).bytes(), ok(nil))
+		// CALL arguments taken from an unwritten region: identity precompile echoes them
+		a = c28New().push(64).push(0).push(64).push(0x5000).push(0).push(4).op(GAS, CALL, POP)
+		add("mem-high-fresh-callargs", a.ret(0, 64).bytes(), ok(c28Zeros(64)))
+	}
 	add("invalid-after-dirty", c28New().mstore(0, c28Junk).pushBytes(c28Ones).pushBytes(c28Ones).op(INVALID).bytes(), fail("invalid opcode"))
 	{
 		a := c28New().push(7).push(3).op(SSTORE).push(9).push(5).op(TSTORE).push(3).op(SLOAD).push(0).op(MSTORE)
@@ -548,6 +594,8 @@ func c28NewEnv() *c28Env {
 	for _, c := range c28CreationContracts() {
 		deploy(c.addr, c.code)
 	}
+	deploy(c28SiblingAddr, c28SiblingCaller())
+	e.al = append(e.al, tuple(c28SiblingAddr))
 	for _, a := range c28PreFunded {
 		sdb.CreateAccount(a)
 		sdb.AddBalance(a, uint256.NewInt(1), tracing.BalanceChangeUnspecified)
@@ -821,7 +869,7 @@ func TestVerif_C28(t *testing.T) {
 		for i, p := range P {
 			switch p.name {
 			case "stack-dirty-48", "stack-dirty-1000", "stack-overflow", "stack-dup-swap", "mem-dirty-128", "mem-dirty-128w", "mem-dirty-511w",
-				"mem-dirty-640w", "mem-oog-after-dirty", "mem-revert-data", "invalid-after-dirty", "recursion-3", "jump-valid",
+				"mem-dirty-640w", "mem-dirty-high-mstore", "mem-dirty-high-codecopy", "mem-dirty-high-calldatacopy", "mem-dirty-high-in-callee", "mem-oog-after-dirty", "mem-revert-data", "invalid-after-dirty", "recursion-3", "jump-valid",
 				"jump-into-push2-data", "jump-far-valid", "delegatecall-lib", "callcode-jump-valid", "delegatecall-jump-invalid",
 				"create-and-call", "sha256-ab", "sha256-ab00", "ripemd-ab", "ecrecover-valid", "ecrecover-valid-trailing", "modexp-3-5-7",
 				"modexp-3-5-7-trailing":
@@ -995,6 +1043,11 @@ func TestVerif_C28(t *testing.T) {
 		}
 		// ---- (f) creations x target account kinds x jump family init codes
 		c28Creations(r, env)
+		if r.Expired() {
+			return
+		}
+		// ---- (g) memory residue between sibling frames of one parent
+		c28Siblings(r, env, base)
 		if onlyGrid {
 			r.NotExhaustive("VERIF_C28_PART=grid: sequence and depth parts skipped")
 		}
@@ -1914,6 +1967,62 @@ func c28Creations(r *mc.R, env *c28Env) {
 				return nil
 			})
 			r.DistinctHash(mc.Hash64("creation-pair" + deps[xi].String() + deps[yi].String()))
+		}
+	})
+}
+
+// ---------------------------------------------------------------------------
+// (g) sibling frames: one parent CALLs a memory dirtier and then a fresh-memory observer
+
+var c28SiblingAddr = c28Addr(3600)
+
+// c28SiblingCaller: CALL(calldata word 0) then CALL(calldata word 1), both with the first call data word as input; returns
+// success of the second call ‖ its return data.
+func c28SiblingCaller() []byte {
+	a := c28New().push(64).push(0).push(0).op(CALLDATACOPY)
+	a.push(0).push(0).push(32).push(0).push(0).push(0).op(CALLDATALOAD, GAS, CALL, POP)
+	a.push(0).push(0).push(32).push(0).push(0).push(32).op(CALLDATALOAD, GAS, CALL)
+	a.push(0x100).op(MSTORE)
+	a.op(RETURNDATASIZE).push(0).push(0x120).op(RETURNDATACOPY)
+	a.op(RETURNDATASIZE).push(0x20).op(ADD).push(0x100).op(RETURN)
+	return a.bytes()
+}
+
+func c28Siblings(r *mc.R, env *c28Env, base []c28Result) {
+	var dirtiers, observers []int
+	for i, p := range env.progs {
+		switch {
+		case len(p.name) > 10 && p.name[:10] == "mem-dirty-":
+			dirtiers = append(dirtiers, i)
+		case len(p.name) > 10 && p.name[:10] == "mem-fresh-", len(p.name) > 15 && p.name[:15] == "mem-high-fresh-":
+			observers = append(observers, i)
+		}
+	}
+	r.Bound("siblings.dirtiers", len(dirtiers))
+	r.Bound("siblings.observers", len(observers))
+	r.Parallel(len(dirtiers), func(di int) {
+		evm := env.newEVM()
+		defer evm.Release()
+		d := env.progs[dirtiers[di]]
+		for _, oi := range observers {
+			o := env.progs[oi]
+			c := map[string]any{"part": "siblings", "dirtier": d.name, "observer": o.name}
+			r.Case(c, func() error {
+				in := append(common.LeftPadBytes(d.addr.Bytes(), 32), common.LeftPadBytes(o.addr.Bytes(), 32)...)
+				res := env.runInput(evm, c28SiblingAddr, c28SiblingAddr, in, c28OuterGas)
+				want := append(c28Word(1), base[oi].ret...)
+				if res.err != "" || !bytes.Equal(res.ret, want) {
+					return fmt.Errorf("observer %s called after sibling %s under one parent: %s / %q, isolated run: %s (%s)", o.name, d.name, c28Hex(res.ret), res.err, c28Hex(want), c28FirstDiff(res.ret, want))
+				}
+				if res.logs != base[oi].logs {
+					return fmt.Errorf("observer %s called after sibling %s: logs %s, isolated run %s", o.name, d.name, res.logs, base[oi].logs)
+				}
+				if w := o.want; w != nil && !bytes.Equal(res.ret[32:], w.ret) {
+					return fmt.Errorf("observer %s called after sibling %s: %s, expected by construction %s", o.name, d.name, c28Hex(res.ret[32:]), c28Hex(w.ret))
+				}
+				return nil
+			})
+			r.DistinctHash(mc.Hash64("sib" + d.name + o.name))
 		}
 	})
 }
